@@ -2,6 +2,7 @@ import QR.Model.Svg
 import QR.Spec.Svg
 import QR.Proofs.Svg
 import QR.Proofs.SourceTie
+import QR.Proofs.Pinned
 /-
 C13 - SVG factories: each factory draws exactly one correctly placed shape per dark module and none for light modules,
 each shape centred on its module's cell and not larger than the cell.
@@ -75,5 +76,9 @@ example : Spec.shapesOK [[true]] 1 0 1
 /-- `BaseImage.is_eye` as it stands in the source is the model's `isEye` -/
 theorem C13_source_is_eye (width row col : Nat) : Gen.Code.is_eye width row col = isEye width row col :=
   QR.SourceTie.isEye_eq width row col
+
+/-- the Python functions this property's model mirrors have, in /repo's current working tree, exactly the normalised
+    ASTs the model was written and validated against (fingerprints regenerated by T1 on every run) -/
+theorem C13_source_fingerprints : QR.Gen.fp_C13 = QR.Pinned.fp_C13 := by decide
 
 end QR.Props
